@@ -77,7 +77,8 @@ PROPS["C14"] = {
     "units": [{
         "pkg": "command/log",
         "tests": [T("TestC14JSON", {"checks": 1200, "shards": 2}, {"checks": 8000, "shards": 8}),
-                  T("TestC14Unique", {"checks": 800, "shards": 2}, {"checks": 5000, "shards": 8})],
+                  T("TestC14Unique", {"checks": 800, "shards": 2}, {"checks": 5000, "shards": 8}),
+                  T("TestC14UniqueLarge", {"checks": 30, "shards": 2}, {"checks": 300, "shards": 8})],
     }],
 }
 
@@ -179,5 +180,21 @@ PROPS["C11"] = {
         "tests": [T("TestC11RoundTrip", {"checks": 600, "shards": 4}, {"checks": 6000, "shards": 8}),
                   T("TestC11CacheFile", {"checks": 300, "shards": 4, "gomaxprocs": [1, 4, 16, 2]}, {"checks": 3000, "shards": 16, "gomaxprocs": [1, 4, 16, 2]}),
                   T("TestC11Commands", {"checks": 25, "shards": 8}, {"checks": 300, "shards": 16})],
+    }],
+}
+
+PROPS["C15"] = {
+    "level": "exploration",
+    "assumptions": ["timing is used one-sidedly (lower bounds on spans, monotonic clock): a slow machine cannot cause a false alarm",
+                    "burst allowance checked is 12 (limiter slack 10 + one slot of observation skew + one of tolerance), plus the worker count for application scans",
+                    "time of a frame = entry of WritePacketData on the virtual wire"],
+    "max_parallel": 8,
+    "units": [{
+        "pkg": "command",
+        "tests": [T("TestC15Algebra", {"checks": 400}, {"checks": 5000, "shards": 4}),
+                  T("TestC15Rate", {"checks": 6, "shards": 8}, {"checks": 60, "shards": 16}),
+                  T("TestC15AppRate", {"checks": 6, "shards": 6}, {"checks": 60, "shards": 12}),
+                  T("TestC15AppStall", {"checks": 4, "shards": 6}, {"checks": 40, "shards": 12}),
+                  T("TestC15Receive", {"checks": 3, "shards": 4}, {"checks": 12, "shards": 8})],
     }],
 }
